@@ -12,8 +12,8 @@ RULE = ("case = (one of 20 RTL queue classes over 4 interface protocols, or one 
         "the full and empty boundaries and to simultaneous enq+deq x stall patterns x mid-run resets (only for classes "
         "that read reset); non-trivial = queue reached full and empty again and >= 1 same-cycle special (pipe enq when "
         "full / bypass deq when empty / simultaneous) occurred; distinct = case digest")
-TIERS = {"quick": {"runs": 800, "budget_s": 100, "chunk": 4},
-         "thorough": {"runs": 80000, "budget_s": 1800, "chunk": 8}}
+TIERS = {"quick": {"runs": 3200, "budget_s": 100, "chunk": 4},
+         "thorough": {"runs": 1000000, "budget_s": 1800, "chunk": 8}}
 REAL = ["pymtl3.stdlib.queues.{queues,enrdy_queues,valrdy_queues,cl_queues}", "pymtl3.stdlib.stream.queues",
         "RegisterFile / Reg* / Mux", "interfaces (enq/deq, send/recv, val/rdy, stream, non_blocking methods)",
         "schedulers incl. SCC iteration (pipe/bypass queues are combinationally cyclic at block level)"]
